@@ -31,6 +31,9 @@ def main():
                 env = dict(os.environ, CGV_REPO=repo, CGV_WORK=os.path.join(scratch, "work"), CGV_EVIDENCE_DIR=os.path.join(scratch, "evidence"))
                 r = subprocess.run([os.path.join(VERIF, "cgv"), prop, "quick"], env=env, cwd=VERIF, stdout=subprocess.PIPE, stderr=subprocess.STDOUT, text=True)
                 hit = r.returncode == 1 and "VIOLATION property=%s" % prop in r.stdout
+                if meta.get("expected") == "not-decided":
+                    print("%-6s %s rc=%d (clause not claimed: %s)" % (s, "NOT-CLAIMED" if not hit else "CAUGHT", r.returncode, meta.get("note", "")[:90]))
+                    continue
                 first = [l for l in r.stdout.splitlines() if l and not l.startswith("VIOLATION")][:1]
                 print("%-6s %s rc=%d %s" % (s, "CAUGHT" if hit else "MISSED", r.returncode, (first[0][:150] if first else "")))
                 ok = ok and hit
